@@ -452,11 +452,15 @@ class Corr:
             for i in range(N):
                 for j in range(N):
                     if periodic:
-                        new_content[t][i, j] = self.content[wrap(t + i + j)][0]
+                        entry = self.content[wrap(t + i + j)]
                     elif (t + i + j) >= self.T:
-                        new_content[t] = None
+                        entry = None
                     else:
-                        new_content[t][i, j] = self.content[t + i + j][0]
+                        entry = self.content[t + i + j]
+                    if entry is None:
+                        new_content[t] = None
+                    elif new_content[t] is not None:
+                        new_content[t][i, j] = entry[0]
 
         return Corr(new_content)
 
